@@ -86,7 +86,7 @@ def _run(cmd):
     return r.returncode, r.stdout
 
 
-def _prune(prefix, keep=3):
+def _prune(prefix, keep=6):
     ds = sorted(glob.glob(os.path.join(BUILD, prefix + "-*")), key=os.path.getmtime, reverse=True)
     for d in ds[keep:]:
         shutil.rmtree(d, ignore_errors=True)
